@@ -756,5 +756,333 @@ example : (identityClient uiNone dec0 0 "AGE-PLUGIN-VERIF-1Q" [⟨"X25519", ["ab
 
 end Examples
 
+/-! ## non-vacuity, theorem by theorem: the hypotheses of each theorem at concrete values
+
+  No hypotheses: `phase1_wellformed_recipient`, `phase1_wellformed_identity`,
+  `unknown_unsupported_and_ignored_recipient`, `unknown_unsupported_and_ignored_identity`.
+  For the theorems whose hypotheses sit inside the conclusion (`index_zero_accepted`,
+  `plugin_error_only_from_error`, `unknown_answered_unsupported`, `no_stanza_wrap_fails`,
+  `no_filekey_incorrect_identity`, the second halves of `index_must_be_zero_*` and
+  `duplicate_*_error`) the witness instantiates those inner premises.
+
+  Throughout: every callback present and answering (`uiAll`, state = number of
+  invocations so far), decoder `dec0`, and
+
+    R₀ c = recipientClient uiAll dec0 0 false "age1verif1q" [7] "grease-1" c
+    I₀ c = identityClient uiAll dec0 0 "AGE-PLUGIN-VERIF-1Q" [⟨"X25519", ["abc"], [1]⟩] "grease-1" c -/
+
+section Nonvacuous
+
+local notation "R₀" => recipientClient uiAll dec0 (0 : Nat) false "age1verif1q" [7] "grease-1"
+local notation "I₀" => identityClient uiAll dec0 (0 : Nat) "AGE-PLUGIN-VERIF-1Q" [⟨"X25519", ["abc"], [1]⟩] "grease-1"
+
+local macro "nv" : tactic =>
+  `(tactic| first | decide | (unfold Listening; decide) | (unfold noDone; decide) | (unfold harmless; decide))
+
+def fk1 : Stanza := ⟨"file-key", ["1"], [9, 9]⟩
+def labelsA : Stanza := ⟨"labels", ["postquantum"], []⟩
+def reqSecret : Stanza := ⟨"request-secret", [], [80, 73, 78, 63]⟩
+def confirmOne : Stanza := ⟨"confirm", ["eWVz"], [113]⟩
+def confirmNoArgs : Stanza := ⟨"confirm", [], [113]⟩
+
+/-- the Confirm callback of `uiAll` is present: the premises `ui.confirm ≠ none → …` below are real -/
+theorem uiAll_confirm : uiAll.confirm ≠ none := by simp [uiAll]
+
+/-- non-vacuity of `phase1_strings_valid`: a recipient encoding, a grease type and
+    two header stanzas (one with an argument, one without) -/
+theorem phase1_strings_valid_nonvacuous :
+    validString "age1verif1q" ∧ validString "grease-1" ∧
+    ∀ s ∈ ([⟨"X25519", ["abc"], [1]⟩, ⟨"verif", [], []⟩] : List Stanza), validStrings s := by
+  unfold validStrings validString; decide
+
+example := phase1_strings_valid uiAll dec0 (0 : Nat) false "age1verif1q" [7]
+  [⟨"X25519", ["abc"], [1]⟩, ⟨"verif", [], []⟩] "grease-1" ⟨[], .eof⟩
+  phase1_strings_valid_nonvacuous.1 phase1_strings_valid_nonvacuous.2.1 phase1_strings_valid_nonvacuous.2.2
+
+/-- non-vacuity of `index_must_be_zero_recipient`: after `labels` and a `msg` (both
+    answered, the client listening) comes `recipient-stanza 1 X25519 abc` -/
+theorem index_must_be_zero_recipient_nonvacuous :
+    rs1.type = "recipient-stanza" ∧ badIndex rs1 ∧
+    noDone [labels0, msg1] ∧ Listening (R₀ ⟨[labels0, msg1], .eof⟩) .eof :=
+  ⟨by nv, by intro idx rest h; cases h; decide, by nv, by nv⟩
+
+example : (R₀ ⟨[labels0, msg1] ++ rs1 :: [doneS], .malformed⟩).result = .error .protocol ∧
+    (R₀ ⟨[labels0, msg1] ++ rs1 :: [doneS], .malformed⟩).replies = (R₀ ⟨[labels0, msg1], .eof⟩).replies :=
+  have h := index_must_be_zero_recipient_nonvacuous
+  (index_must_be_zero_recipient uiAll dec0 0 false "age1verif1q" [7] "grease-1" [labels0, msg1] rs1 [doneS]
+    .malformed h.1 h.2.1).2 .eof h.2.2.2
+
+/-- non-vacuity of `index_must_be_zero_identity`: after a `msg` and an unknown
+    command comes `file-key 1` -/
+theorem index_must_be_zero_identity_nonvacuous :
+    fk1.type = "file-key" ∧ badIndex fk1 ∧
+    noDone [msg1, unknown1] ∧ Listening (I₀ ⟨[msg1, unknown1], .eof⟩) .eof :=
+  ⟨by nv, by intro idx rest h; cases h; decide, by nv, by nv⟩
+
+example : Hard (I₀ ⟨[msg1, unknown1] ++ fk1 :: [doneS], .eof⟩).result :=
+  have h := index_must_be_zero_identity_nonvacuous
+  (index_must_be_zero_identity uiAll dec0 0 "AGE-PLUGIN-VERIF-1Q" [⟨"X25519", ["abc"], [1]⟩] "grease-1"
+    [msg1, unknown1] fk1 [doneS] .eof h.1 h.2.1).1 h.2.2.1
+
+/-- non-vacuity of `index_zero_accepted`: index `0`; for the wrap `rs0` after
+    `labels`, `msg`; for the unwrap `fk0` after `msg` and an unknown command
+    (the `example` below: the spellings `+0` and `-0`) -/
+theorem index_zero_accepted_nonvacuous :
+    atoi "0" = some 0 ∧
+    (rs0.type = "recipient-stanza" ∧ rs0.args = "0" :: "X25519" :: ["abc"] ∧
+      Listening (R₀ ⟨[labels0, msg1], .eof⟩) .eof) ∧
+    (fk0.type = "file-key" ∧ fk0.args = ["0"] ∧ Listening (I₀ ⟨[msg1, unknown1], .eof⟩) .eof ∧
+      ∀ x ∈ [msg1, unknown1], x.type ≠ "file-key") :=
+  ⟨by nv, ⟨by nv, by nv, by nv⟩, by nv, by nv, by nv, by nv⟩
+
+example : atoi "+0" = some 0 ∧ rsPlus0.type = "recipient-stanza" ∧ rsPlus0.args = "+0" :: "scrypt" :: [] ∧
+    atoi "-0" = some 0 ∧ fk0e.type = "file-key" ∧ fk0e.args = ["-0"] := by decide
+
+example : Listening (I₀ ⟨[msg1, unknown1] ++ [fk0], .malformed⟩) .malformed ∧
+    (I₀ ⟨[msg1, unknown1] ++ [fk0], .malformed⟩).replies = (I₀ ⟨[msg1, unknown1], .eof⟩).replies ++ [okS] :=
+  have h := index_zero_accepted_nonvacuous
+  (index_zero_accepted uiAll dec0 0 false "age1verif1q" [7] [⟨"X25519", ["abc"], [1]⟩] "grease-1"
+    [msg1, unknown1] fk0 .eof .malformed "0" h.1).2 h.2.2.1 h.2.2.2.1 h.2.2.2.2.1 h.2.2.2.2.2
+
+example : Listening (R₀ ⟨[labels0, msg1] ++ [rs0], .malformed⟩) .malformed :=
+  have h := index_zero_accepted_nonvacuous
+  ((index_zero_accepted uiAll dec0 0 false "age1verif1q" [7] [⟨"X25519", ["abc"], [1]⟩] "grease-1"
+    [labels0, msg1] rs0 .eof .malformed "0" h.1).1 "X25519" ["abc"] h.2.1.1 h.2.1.2.1 h.2.1.2.2).1
+
+/-- non-vacuity of `duplicate_filekey_error`: `msg`, `file-key -0` with an empty
+    body, an unknown command, then `file-key 0` with a body -/
+theorem duplicate_filekey_error_nonvacuous :
+    fk0e.type = "file-key" ∧ fk0.type = "file-key" ∧ noDone [msg1] ∧ noDone [unknown1] ∧
+    Listening (I₀ ⟨[msg1] ++ fk0e :: [unknown1], .eof⟩) .eof :=
+  ⟨by nv, by nv, by nv, by nv, by nv⟩
+
+example : (I₀ ⟨[msg1] ++ fk0e :: ([unknown1] ++ fk0 :: [doneS]), .eof⟩).result = .error .protocol :=
+  have h := duplicate_filekey_error_nonvacuous
+  ((duplicate_filekey_error uiAll dec0 0 "AGE-PLUGIN-VERIF-1Q" [⟨"X25519", ["abc"], [1]⟩] "grease-1"
+    [msg1] fk0e [unknown1] fk0 [doneS] .eof h.1 h.2.1).2 .eof h.2.2.2.2).1
+
+/-- non-vacuity of `duplicate_labels_error`: a stanza, `labels` without arguments,
+    a `msg`, then `labels postquantum` -/
+theorem duplicate_labels_error_nonvacuous :
+    labels0.type = "labels" ∧ labelsA.type = "labels" ∧ noDone [rs0] ∧ noDone [msg1] ∧
+    Listening (R₀ ⟨[rs0] ++ labels0 :: [msg1], .eof⟩) .eof :=
+  ⟨by nv, by nv, by nv, by nv, by nv⟩
+
+example : (R₀ ⟨[rs0] ++ labels0 :: ([msg1] ++ labelsA :: [doneS]), .eof⟩).result = .error .protocol :=
+  have h := duplicate_labels_error_nonvacuous
+  ((duplicate_labels_error uiAll dec0 0 false "age1verif1q" [7] "grease-1"
+    [rs0] labels0 [msg1] labelsA [doneS] .eof h.1 h.2.1).2 .eof h.2.2.2.2).1
+
+/-- non-vacuity of `error_acked_then_abort_recipient`: `error` with body "boom"
+    reaches a client that has acknowledged a stanza and a `msg` -/
+theorem error_acked_then_abort_recipient_nonvacuous :
+    error1.type = "error" ∧ Listening (R₀ ⟨[rs0, msg1], .eof⟩) .eof := ⟨by nv, by nv⟩
+
+example : (R₀ ⟨[rs0, msg1] ++ error1 :: [doneS], .eof⟩).result = .error (.pluginError [98, 111, 111, 109]) :=
+  (error_acked_then_abort_recipient uiAll dec0 0 false "age1verif1q" [7] "grease-1" [rs0, msg1] error1 [doneS]
+    .eof .eof error_acked_then_abort_recipient_nonvacuous.1 error_acked_then_abort_recipient_nonvacuous.2).2
+
+/-- non-vacuity of `error_acked_then_abort_identity`: the same after a file key and a `msg` -/
+theorem error_acked_then_abort_identity_nonvacuous :
+    error1.type = "error" ∧ Listening (I₀ ⟨[fk0, msg1], .malformed⟩) .malformed := ⟨by nv, by nv⟩
+
+example : (I₀ ⟨[fk0, msg1] ++ error1 :: [doneS], .eof⟩).replies = (I₀ ⟨[fk0, msg1], .malformed⟩).replies ++ [okS] :=
+  (error_acked_then_abort_identity uiAll dec0 0 "AGE-PLUGIN-VERIF-1Q" [⟨"X25519", ["abc"], [1]⟩] "grease-1"
+    [fk0, msg1] error1 [doneS] .malformed .eof error_acked_then_abort_identity_nonvacuous.1
+    error_acked_then_abort_identity_nonvacuous.2).1
+
+/-- non-vacuity of `plugin_error_only_from_error` (no outer hypotheses; the premises
+    of its two parts): conversations that do end with the plugin's text "boom" -/
+theorem plugin_error_only_from_error_nonvacuous :
+    (R₀ ⟨[rs0, msg1, error1, doneS], .eof⟩).result = .error (.pluginError [98, 111, 111, 109]) ∧
+    (I₀ ⟨[fk0, msg1, error1, doneS], .eof⟩).result = .error (.pluginError [98, 111, 111, 109]) := by decide
+
+example : ∃ m ∈ [rs0, msg1, error1, doneS], m.type = "error" ∧ m.body = [98, 111, 111, 109] :=
+  ((plugin_error_only_from_error uiAll dec0 0 false "age1verif1q" [7] [⟨"X25519", ["abc"], [1]⟩] "grease-1"
+    ⟨[rs0, msg1, error1, doneS], .eof⟩ [98, 111, 111, 109]).1 plugin_error_only_from_error_nonvacuous.1).2
+example : ∃ init, (I₀ ⟨[fk0, msg1, error1, doneS], .eof⟩).replies = init ++ [okS] :=
+  ((plugin_error_only_from_error uiAll dec0 0 false "age1verif1q" [7] [⟨"X25519", ["abc"], [1]⟩] "grease-1"
+    ⟨[fk0, msg1, error1, doneS], .eof⟩ [98, 111, 111, 109]).2 plugin_error_only_from_error_nonvacuous.2).1
+
+/-- non-vacuity of `unknown_answered_unsupported`: `frobnicate a` reaches a
+    listening wrap / unwrap (the `example` below: `file-key` is unknown to the wrap,
+    `recipient-stanza` and `labels` to the unwrap) -/
+theorem unknown_answered_unsupported_nonvacuous :
+    (unknown1.type ∉ recipientCommands ∧ Listening (R₀ ⟨[rs0, msg1], .eof⟩) .eof) ∧
+    (unknown1.type ∉ identityCommands ∧ Listening (I₀ ⟨[fk0, msg1], .eof⟩) .eof) :=
+  ⟨⟨by nv, by nv⟩, by nv, by nv⟩
+
+example : fk0.type ∉ recipientCommands ∧ rs0.type ∉ identityCommands ∧ labels0.type ∉ identityCommands := by
+  decide
+
+example : (R₀ ⟨[rs0, msg1] ++ [unknown1], .eof⟩).replies = (R₀ ⟨[rs0, msg1], .eof⟩).replies ++ [unsupportedS] :=
+  have h := unknown_answered_unsupported_nonvacuous
+  ((unknown_answered_unsupported uiAll dec0 0 false "age1verif1q" [7] [⟨"X25519", ["abc"], [1]⟩] "grease-1"
+    [rs0, msg1] unknown1 .eof .eof).1 h.1.1 h.1.2).2.1
+
+/-- non-vacuity of `ui_dispatch_msg_recipient`: a `msg` with body "hi" after a stanza -/
+theorem ui_dispatch_msg_recipient_nonvacuous :
+    msg1.type = "msg" ∧ Listening (R₀ ⟨[rs0], .eof⟩) .eof := ⟨by nv, by nv⟩
+
+example := ui_dispatch_msg_recipient uiAll dec0 0 false "age1verif1q" [7] "grease-1" [rs0] msg1 .eof .eof
+  ui_dispatch_msg_recipient_nonvacuous.1 ui_dispatch_msg_recipient_nonvacuous.2
+
+/-- non-vacuity of `ui_dispatch_request_recipient`: `request-secret` with prompt "PIN?"
+    after a stanza and a `msg` (the `example`: `request-public`) -/
+theorem ui_dispatch_request_recipient_nonvacuous :
+    (reqSecret.type = "request-secret" ∨ reqSecret.type = "request-public") ∧
+    Listening (R₀ ⟨[rs0, msg1], .eof⟩) .eof := ⟨by nv, by nv⟩
+
+example : ((⟨"request-public", [], []⟩ : Stanza).type = "request-secret" ∨
+    (⟨"request-public", [], []⟩ : Stanza).type = "request-public") := by decide
+
+example := ui_dispatch_request_recipient uiAll dec0 0 false "age1verif1q" [7] "grease-1" [rs0, msg1] reqSecret
+  .eof .eof ui_dispatch_request_recipient_nonvacuous.1 ui_dispatch_request_recipient_nonvacuous.2
+
+/-- non-vacuity of `ui_dispatch_confirm_recipient`: `confirm eWVz bm8` ("yes", "no")
+    with the Confirm callback present (`uiAll_confirm`), so that both decoding
+    premises are used; the `example` below: the one-argument form -/
+theorem ui_dispatch_confirm_recipient_nonvacuous :
+    confirm1.type = "confirm" ∧ Listening (R₀ ⟨[rs0], .eof⟩) .eof ∧
+    ((confirm1.args = ["eWVz"] ∧ ([110, 111] : Bytes) = []) ∨
+      (∃ n, confirm1.args = ["eWVz", n] ∧ (uiAll.confirm ≠ none → dec0 n = some [110, 111]))) ∧
+    (uiAll.confirm ≠ none → dec0 "eWVz" = some [121, 101, 115]) :=
+  ⟨by nv, by nv, Or.inr ⟨"bm8", by decide, fun _ => by decide⟩, fun _ => by decide⟩
+
+example : confirmOne.type = "confirm" ∧
+    ((confirmOne.args = ["eWVz"] ∧ ([] : Bytes) = []) ∨
+      (∃ n, confirmOne.args = ["eWVz", n] ∧ (uiAll.confirm ≠ none → dec0 n = some []))) :=
+  ⟨by decide, Or.inl ⟨by decide, rfl⟩⟩
+
+example := 
+  have h := ui_dispatch_confirm_recipient_nonvacuous
+  ui_dispatch_confirm_recipient uiAll dec0 0 false "age1verif1q" [7] "grease-1" [rs0] confirm1 .eof .eof
+    h.1 h.2.1 "eWVz" [121, 101, 115] [110, 111] h.2.2.1 h.2.2.2
+
+/-- non-vacuity of `confirm_malformed_fatal_recipient`: with the Confirm callback
+    present, `confirm e` whose argument `dec0` does not decode (second
+    alternative); the `example` below: `confirm` without arguments (first alternative) -/
+theorem confirm_malformed_fatal_recipient_nonvacuous :
+    confirmBad.type = "confirm" ∧ Listening (R₀ ⟨[rs0], .eof⟩) .eof ∧
+    ((confirmBad.args.length ≠ 1 ∧ confirmBad.args.length ≠ 2) ∨
+     (uiAll.confirm ≠ none ∧ (confirmBad.args.length = 1 ∨ confirmBad.args.length = 2) ∧
+       ∃ a ∈ confirmBad.args, dec0 a = none)) :=
+  ⟨by nv, by nv, Or.inr ⟨uiAll_confirm, by decide, by decide⟩⟩
+
+example : confirmNoArgs.type = "confirm" ∧
+    (confirmNoArgs.args.length ≠ 1 ∧ confirmNoArgs.args.length ≠ 2) := by decide
+
+example : (R₀ ⟨[rs0] ++ confirmBad :: [doneS], .eof⟩).result = .error .protocol :=
+  have h := confirm_malformed_fatal_recipient_nonvacuous
+  (confirm_malformed_fatal_recipient uiAll dec0 0 false "age1verif1q" [7] "grease-1" [rs0] confirmBad [doneS]
+    .eof .eof h.1 h.2.1 h.2.2).1
+
+/-- non-vacuity of `ui_dispatch_msg_identity`: a `msg` after a file key -/
+theorem ui_dispatch_msg_identity_nonvacuous :
+    msg1.type = "msg" ∧ Listening (I₀ ⟨[fk0], .eof⟩) .eof := ⟨by nv, by nv⟩
+
+example := ui_dispatch_msg_identity uiAll dec0 0 "AGE-PLUGIN-VERIF-1Q" [⟨"X25519", ["abc"], [1]⟩] "grease-1"
+  [fk0] msg1 .eof .eof ui_dispatch_msg_identity_nonvacuous.1 ui_dispatch_msg_identity_nonvacuous.2
+
+/-- non-vacuity of `ui_dispatch_request_identity`: `request-secret` "PIN?" before any file key -/
+theorem ui_dispatch_request_identity_nonvacuous :
+    (reqSecret.type = "request-secret" ∨ reqSecret.type = "request-public") ∧
+    Listening (I₀ ⟨[msg1], .eof⟩) .eof := ⟨by nv, by nv⟩
+
+example := ui_dispatch_request_identity uiAll dec0 0 "AGE-PLUGIN-VERIF-1Q" [⟨"X25519", ["abc"], [1]⟩] "grease-1"
+  [msg1] reqSecret .eof .eof ui_dispatch_request_identity_nonvacuous.1 ui_dispatch_request_identity_nonvacuous.2
+
+/-- non-vacuity of `ui_dispatch_confirm_identity`: `confirm eWVz bm8`, Confirm callback present -/
+theorem ui_dispatch_confirm_identity_nonvacuous :
+    confirm1.type = "confirm" ∧ Listening (I₀ ⟨[msg1], .eof⟩) .eof ∧
+    ((confirm1.args = ["eWVz"] ∧ ([110, 111] : Bytes) = []) ∨
+      (∃ n, confirm1.args = ["eWVz", n] ∧ (uiAll.confirm ≠ none → dec0 n = some [110, 111]))) ∧
+    (uiAll.confirm ≠ none → dec0 "eWVz" = some [121, 101, 115]) :=
+  ⟨by nv, by nv, Or.inr ⟨"bm8", by decide, fun _ => by decide⟩, fun _ => by decide⟩
+
+example :=
+  have h := ui_dispatch_confirm_identity_nonvacuous
+  ui_dispatch_confirm_identity uiAll dec0 0 "AGE-PLUGIN-VERIF-1Q" [⟨"X25519", ["abc"], [1]⟩] "grease-1"
+    [msg1] confirm1 .eof .eof h.1 h.2.1 "eWVz" [121, 101, 115] [110, 111] h.2.2.1 h.2.2.2
+
+/-- non-vacuity of `confirm_malformed_fatal_identity`: `confirm` without arguments
+    (first alternative; the second one is witnessed for the wrap above and by
+    the `example` below) -/
+theorem confirm_malformed_fatal_identity_nonvacuous :
+    confirmNoArgs.type = "confirm" ∧ Listening (I₀ ⟨[msg1], .eof⟩) .eof ∧
+    ((confirmNoArgs.args.length ≠ 1 ∧ confirmNoArgs.args.length ≠ 2) ∨
+     (uiAll.confirm ≠ none ∧ (confirmNoArgs.args.length = 1 ∨ confirmNoArgs.args.length = 2) ∧
+       ∃ a ∈ confirmNoArgs.args, dec0 a = none)) :=
+  ⟨by nv, by nv, Or.inl (by decide)⟩
+
+example : uiAll.confirm ≠ none ∧ (confirm1.args.length = 1 ∨ confirm1.args.length = 2) ∧
+    ∃ a ∈ (⟨"confirm", ["eWVz", "b"], []⟩ : Stanza).args, dec0 a = none := ⟨uiAll_confirm, by decide, by decide⟩
+
+example : (I₀ ⟨[msg1] ++ confirmNoArgs :: [doneS], .eof⟩).result = .error .protocol :=
+  have h := confirm_malformed_fatal_identity_nonvacuous
+  (confirm_malformed_fatal_identity uiAll dec0 0 "AGE-PLUGIN-VERIF-1Q" [⟨"X25519", ["abc"], [1]⟩] "grease-1"
+    [msg1] confirmNoArgs [doneS] .eof .eof h.1 h.2.1 h.2.2).1
+
+/-- non-vacuity of `no_stanza_wrap_fails` (no outer hypotheses; the premises of its
+    two parts): a wrap that succeeds with two stanzas and empty labels; and a
+    `done` reaching a client that has only seen `labels` and a `msg` -/
+theorem no_stanza_wrap_fails_nonvacuous :
+    (R₀ ⟨[rs0, labels0, msg1, rsPlus0, doneS, rs1], .eof⟩).result =
+      .ok ([⟨"X25519", ["abc"], [1, 2]⟩, ⟨"scrypt", [], []⟩], some []) ∧
+    ((⟨[labels0, msg1, doneS, rs0], .eof⟩ : Conv).msgs = [labels0, msg1] ++ doneS :: [rs0] ∧
+      Listening (R₀ ⟨[labels0, msg1], .malformed⟩) .malformed ∧
+      (∀ x ∈ [labels0, msg1], x.type ≠ "recipient-stanza") ∧ doneS.type = "done") :=
+  ⟨by decide, rfl, by nv, by nv, by nv⟩
+
+example : (R₀ ⟨[labels0, msg1, doneS, rs0], .eof⟩).result = .error .noStanzas :=
+  have h := no_stanza_wrap_fails_nonvacuous.2
+  ((no_stanza_wrap_fails uiAll dec0 0 false "age1verif1q" [7] "grease-1" ⟨[labels0, msg1, doneS, rs0], .eof⟩).2
+    [labels0, msg1] doneS [rs0] .malformed h.1 h.2.1 h.2.2.1 h.2.2.2).1
+
+/-- non-vacuity of `no_filekey_incorrect_identity` (no outer hypotheses; the
+    premises of its two parts): an unwrap that succeeds with the key `[9, 9]`; and
+    a `done` reaching a client that has only seen a `file-key` with an empty body
+    and a `msg` -/
+theorem no_filekey_incorrect_identity_nonvacuous :
+    (I₀ ⟨[msg1, fk0, unknown1, doneS, fk0], .eof⟩).result = .ok [9, 9] ∧
+    ((⟨[fk0e, msg1, doneS, fk0], .eof⟩ : Conv).msgs = [fk0e, msg1] ++ doneS :: [fk0] ∧
+      Listening (I₀ ⟨[fk0e, msg1], .eof⟩) .eof ∧
+      (∀ x ∈ [fk0e, msg1], x.type = "file-key" → x.body = []) ∧ doneS.type = "done") :=
+  ⟨by decide, rfl, by nv, by nv, by nv⟩
+
+example : (I₀ ⟨[fk0e, msg1, doneS, fk0], .eof⟩).result = .error .incorrectIdentity :=
+  have h := no_filekey_incorrect_identity_nonvacuous.2
+  ((no_filekey_incorrect_identity uiAll dec0 0 "AGE-PLUGIN-VERIF-1Q" [⟨"X25519", ["abc"], [1]⟩] "grease-1"
+    ⟨[fk0e, msg1, doneS, fk0], .eof⟩).2 [fk0e, msg1] doneS [fk0] .eof h.1 h.2.1 h.2.2.1 h.2.2.2).1
+
+/-- non-vacuity of `eof_is_error_recipient`: a stanza, `labels`, a `msg`, then the stream ends -/
+theorem eof_is_error_recipient_nonvacuous : noDone [rs0, labels0, msg1] := by nv
+
+example : Hard (R₀ ⟨[rs0, labels0, msg1], .eof⟩).result :=
+  eof_is_error_recipient uiAll dec0 0 false "age1verif1q" [7] "grease-1" _ .eof eof_is_error_recipient_nonvacuous
+
+/-- non-vacuity of `eof_is_error_identity`: a file key and a `confirm`, then malformed framing -/
+theorem eof_is_error_identity_nonvacuous : noDone [fk0, confirm1] := by nv
+
+example : Hard (I₀ ⟨[fk0, confirm1], .malformed⟩).result :=
+  eof_is_error_identity uiAll dec0 0 "AGE-PLUGIN-VERIF-1Q" [⟨"X25519", ["abc"], [1]⟩] "grease-1" _ .malformed
+    eof_is_error_identity_nonvacuous
+
+/-- non-vacuity of `hard_excludes`: the result of a wrap whose second stanza has index 1 -/
+theorem hard_excludes_nonvacuous : Hard (R₀ ⟨[rs0, rs1, doneS], .eof⟩).result :=
+  ⟨.protocol, by decide, trivial⟩
+
+example : (R₀ ⟨[rs0, rs1, doneS], .eof⟩).result ≠ .error .noStanzas :=
+  (hard_excludes _ hard_excludes_nonvacuous).2.2
+
+/-- non-vacuity of `eof_after_harmless_messages`: a `msg`, an unknown command, `request-public` -/
+theorem eof_after_harmless_messages_nonvacuous :
+    ∀ m ∈ [msg1, unknown1, (⟨"request-public", [], []⟩ : Stanza)], harmless m.type := by nv
+
+example := eof_after_harmless_messages uiAll dec0 0 false "age1verif1q" [7] [⟨"X25519", ["abc"], [1]⟩] "grease-1"
+  _ .eof eof_after_harmless_messages_nonvacuous
+
+end Nonvacuous
+
 end Props.C16
 end AgeModel
